@@ -58,6 +58,12 @@ def keywords : List String :=
    "module", "try", "catch", "finally", "switch", "case", "default", "go", "defer", "chan", "struct", "make", "type",
    "len", "delete", "close", "map", "import"]
 
+/-- scanner errors: the messages of lexer.go, and `fuel` (never produced: Props.C15) -/
+inductive LexErr where
+  | fuel
+  | msg (m : String)
+  deriving DecidableEq, Repr, Inhabited
+
 inductive Tok where
   | eof
   | ident (s : String)
@@ -69,15 +75,15 @@ inductive Tok where
   deriving DecidableEq, Repr, Inhabited
 
 /-- scanNumber (the first digit is at the current position) -/
-def scanNumberTail : Nat → S → List Char → Bool → Except String (List Char × S)
-  | 0, s, acc, _ => .ok (acc.reverse, s)
+def scanNumberTail : Nat → S → List Char → Bool → Except LexErr (List Char × S)
+  | 0, _, _, _ => .error .fuel
   | n + 1, s, acc, found =>
     match s.peek with
     | some c =>
       if isDigit c then scanNumberTail n s.next (c :: acc) found
       else if c == '.' then scanNumberTail n s.next ('.' :: acc) found
       else if c == 'e' || c == 'E' then
-        if found then .error ("unexpected " ++ String.singleton c)
+        if found then .error (.msg ("unexpected " ++ String.singleton c))
         else
           let s1 := s.next
           (match s1.peek with
@@ -87,13 +93,13 @@ def scanNumberTail : Nat → S → List Char → Bool → Except String (List Ch
       else .ok (acc.reverse, s)
     | none => .ok (acc.reverse, s)
 
-def scanNumber (s : S) : Except String (String × S) :=
+def scanNumber (s : S) : Except LexErr (String × S) :=
   match s.peek with
-  | none => .error "scanNumber at EOF"
+  | none => .error (.msg "scanNumber at EOF")
   | some c0 =>
     let s1 := s.next
     let fuel := s.src.size + 1
-    let r : Except String (List Char × S) :=
+    let r : Except LexErr (List Char × S) :=
       if c0 == '0' && (s1.peek == some 'x' || s1.peek == some 'X') then
         let (ds, s2) := takeWhile isHex fuel s1.next []
         .ok (c0 :: 'x' :: ds, s2)
@@ -106,27 +112,27 @@ def scanNumber (s : S) : Except String (String × S) :=
     match r with
     | .error e => .error e
     | .ok (cs, s2) =>
-      if peekIs s2 isLetter then .error "identifier starts immediately after numeric literal"
+      if peekIs s2 isLetter then .error (.msg "identifier starts immediately after numeric literal")
       else .ok (String.ofList cs, s2)
 
 /-- scanRawString(l): from the opening delimiter to the closing one -/
-def scanRaw (l : Char) : Nat → S → List Char → Except String (List Char × S)
-  | 0, _, _ => .error "fuel"
+def scanRaw (l : Char) : Nat → S → List Char → Except LexErr (List Char × S)
+  | 0, _, _ => .error .fuel
   | n + 1, s, acc =>
     let s1 := s.next
     match s1.peek with
-    | none => .error "unexpected EOF"
+    | none => .error (.msg "unexpected EOF")
     | some c => if c == l then .ok (acc.reverse, s1.next) else scanRaw l n s1 (c :: acc)
 
 /-- scanString(l) with backslash escapes -/
-def scanStr (l : Char) : Nat → S → List Char → Except String (List Char × S)
-  | 0, _, _ => .error "fuel"
+def scanStr (l : Char) : Nat → S → List Char → Except LexErr (List Char × S)
+  | 0, _, _ => .error .fuel
   | n + 1, s, acc =>
     let s1 := s.next
     match s1.peek with
-    | none => .error "unexpected EOF"
+    | none => .error (.msg "unexpected EOF")
     | some c =>
-      if c == '\n' then .error "unexpected EOL"
+      if c == '\n' then .error (.msg "unexpected EOL")
       else if c == l then .ok (acc.reverse, s1.next)
       else if c == '\\' then
         let s2 := s1.next
@@ -146,8 +152,8 @@ structure Token where
   deriving DecidableEq, Repr, Inhabited
 
 /-- the `/* ... */` loop: `s` stands on the `*` after the `/` -/
-def skipBlockComment : Nat → S → Except String S
-  | 0, _ => .error "fuel"
+def skipBlockComment : Nat → S → Except LexErr S
+  | 0, _ => .error .fuel
   | n + 1, s =>
     match scanRaw '*' (s.src.size + 1) s [] with
     | .error e => .error e
@@ -164,8 +170,8 @@ def twoChar (s : S) (c : Char) (alts : List (Char × String)) : Tok × S :=
   | none => (.ch c, s1.back.next)
 
 /-- Scan: one token (with its position) or an error (with the position it is reported at) -/
-def scan : Nat → S → Except (String × Pos) (Token × S)
-  | 0, s => .error ("fuel", s.pos)
+def scan : Nat → S → Except (LexErr × Pos) (Token × S)
+  | 0, s => .error (.fuel, s.pos)
   | n + 1, s0 =>
     let s := skipWhile isBlank (s0.src.size + 1) s0
     let pos := s.pos
@@ -219,21 +225,21 @@ def scan : Nat → S → Except (String × Pos) (Token × S)
         if s1.peek == some '.' then
           let s2 := s1.next
           if s2.peek == some '.' then .ok (⟨.op "...", pos⟩, s2.next)
-          else .error ("syntax error on '.' at " ++ toString pos.line ++ ":" ++ toString pos.col, pos)
+          else .error (.msg ("syntax error on '.' at " ++ toString pos.line ++ ":" ++ toString pos.col), pos)
         else .ok (⟨.ch '.', pos⟩, s1.back.next)
       else if ['\n', '(', ')', ':', ';', '%', '{', '}', '[', ']', ',', '^'].contains ch then
         .ok (⟨.ch ch, pos⟩, s.next)
-      else .error ("syntax error on '" ++ String.singleton ch ++ "' at " ++ toString pos.line ++ ":" ++ toString pos.col, pos)
+      else .error (.msg ("syntax error on '" ++ String.singleton ch ++ "' at " ++ toString pos.line ++ ":" ++ toString pos.col), pos)
 
 /-- all tokens up to EOF or the first error -/
-def lexAll : Nat → S → List Token → List Token × Option (String × Pos)
-  | 0, _, acc => (acc.reverse, some ("fuel", ⟨0, 0⟩))
+def lexAll : Nat → S → List Token → List Token × Option (LexErr × Pos)
+  | 0, _, acc => (acc.reverse, some (.fuel, ⟨0, 0⟩))
   | n + 1, s, acc =>
     match scan (s.src.size + 2) s with
     | .error e => (acc.reverse, some e)
     | .ok (t, s1) => if t.tok == .eof then ((t :: acc).reverse, none) else lexAll n s1 (t :: acc)
 
-def lex (src : String) : List Token × Option (String × Pos) :=
+def lex (src : String) : List Token × Option (LexErr × Pos) :=
   let s : S := ⟨src.toList.toArray, 0, 0, 0⟩
   lexAll (s.src.size + 2) s []
 
